@@ -58,6 +58,11 @@ def run(modname, fname, kwargs, trace=False):
     tb = traceback.extract_tb(e.__traceback__)
     if isinstance(e, (ImportError, NotImplementedError)) and tb and tb[-1].filename.startswith(_ROOT):
       ok = None          # the harness itself is broken: infrastructure error, never a violation
+    elif (isinstance(e, AttributeError) and tb and tb[-1].filename.startswith(_ROOT) and
+          "module 'gin" in str(e)):
+      # the harness reached for a private module-level name of gin that is not there (any more): the harness
+      # does not fit this tree - an infrastructure error, not a statement about the property
+      ok = None
   finally:
     sys.settrace(None)
   return {'ok': None if ok is None else bool(ok is True or (ok is not False and ok)), 'error': err,
